@@ -28,7 +28,7 @@ CHECKS = {
         level="exploration",
         required_probes=['thread_blocked_on_lock_or_critical', 'single_won_by_non_master', 'thread_received_no_chunk', 'park_event_fired_kind_1', 'park_event_fired_kind_2', 'strategy_1_sync', 'more_than_8_threads', 'ring_diff_tables_left_to_first_use', 'first_set_num_threads_in_fresh_process'],
         parts=[dict(harness="chk_C18", variant="omp", src="checks/chk_C18.cpp",
-                    runs=dict(quick=8800, thorough=200000), wall_cap=dict(quick=170, thorough=2700))],
+                    runs=dict(quick=8800, thorough=200000), wall_cap=dict(quick=240, thorough=3000))],
         rule=("one case = one generated plan: scenario (forward / back projection, objective function, lazy geometry tables, "
               "shared matrix cache, normalisation, single-scatter simulation, list-mode objective function, Array reductions, back projection with another thread count than at set_up), geometry, matrix settings, thread count 2..16 and a seeded schedule "
               "(PCT(d<=3) / random walk / sync-only / round-robin) executed by the simulator's own OpenMP runtime with every "
